@@ -51,7 +51,7 @@ def lname(lay):
 def queries(ctx):
     qs = []
 
-    def q(name, u, ops, lay=None, forder=0, tiers=("quick", "thorough"), timeout=1800):
+    def q(name, u, ops, lay=None, forder=0, tiers=("quick", "thorough"), timeout=1800, slow=False):
         k = len(ops)
         defs = ["U=%d" % u, "K=%d" % k, "MAXNODES=%d" % (u + 1), "OPSEQ=" + ",".join(str(o) for o in ops)]
         has_m, has_f = 0 in ops, 1 in ops
@@ -79,7 +79,7 @@ def queries(ctx):
                 if any(lay[i][1] and 0 < i < n - 1 and not lay[i - 1][1] and not lay[i + 1][1] for i in range(n)):
                     defs.append("W_MERGE2=1")
         qs.append(Q(name, ["zh.c"] + OBJ, defs=defs, unwind=u + 3, unwindset=["expand_array.0:11"],
-                    units=[ZM, "parsec/utils/zone_malloc.h"], object_bits=10, timeout=timeout, tiers=tiers, mem_gb=8,
+                    units=[ZM, "parsec/utils/zone_malloc.h"], object_bits=10, timeout=timeout, tiers=tiers, mem_gb=8, slow=slow,
                     info={"symbolic": ["malloc: byte size 0..%d" % ((u + 1) * 16), "free: which live block", "everything the operation reads (table, lists, index) is the state built by the real code"],
                           "enumerated": ["units U=%d" % u, "start state: %s" % ("zone_malloc_init" if lay is None else "layout %s (F=live, e=free, sizes in units), frees in %s address order" % (lname(lay), "decreasing" if forder else "increasing")),
                                          "operation kinds: %s" % ",".join("free" if o else "malloc" for o in ops)],
@@ -100,12 +100,16 @@ def queries(ctx):
     # 4 units: two different free sizes exist only from 4 units on (best fit must pick the smaller run)
     quick4 = [[(1, 0), (1, 1), (2, 0)], [(2, 0), (1, 1), (1, 0)]]
     for lay in layouts(4):
-        nfree = sum(1 for s, f in lay if not f)
+        free = [s for s, f in lay if not f]
         tiers = ("quick", "thorough") if lay in quick4 else T
-        for fo in ((0, 1) if (nfree >= 2 and lay not in quick4) else (0,)):
+        # the order inside an index list only matters when two free segments have the same size (pop_front picks the first)
+        orders = (0, 1) if len(free) != len(set(free)) else (0,)
+        for fo in orders:
             q("u4_%s_o%d_M" % (lname(lay), fo), 4, (0,), lay, fo, tiers=tiers, timeout=3400)
-            if any(f for s, f in lay) and lay not in quick4:
-                q("u4_%s_o%d_F" % (lname(lay), fo), 4, (1,), lay, fo, tiers=T, timeout=3400)
+        n4 = len(lay)
+        mergeable = any(lay[i][1] and ((i > 0 and not lay[i - 1][1]) or (i + 1 < n4 and not lay[i + 1][1])) for i in range(n4))
+        if mergeable and lay not in quick4:     # frees without a free neighbour are fully covered at 3 units
+            q("u4_%s_o0_F" % lname(lay), 4, (1,), lay, 0, tiers=T, timeout=3400, slow=True)
     return qs
 
 
@@ -121,5 +125,5 @@ def mutants(ctx):
         Mutant("malloc_first_fit_from_larger", ZM, "    fl = (zone_malloc_chunk_list_t*) parsec_rbtree_find_or_larger(&gdata->rbtree, nb_units);",
                "    fl = (zone_malloc_chunk_list_t*) parsec_rbtree_find_or_larger(&gdata->rbtree, nb_units + 1); if (NULL == fl) fl = (zone_malloc_chunk_list_t*) parsec_rbtree_find(&gdata->rbtree, nb_units);",
                queries=["u4_e1F1e2_o0_M", "u4_e2F1e1_o0_M"]),
-        Mutant("free_forgets_to_unlock_on_double_merge", ZM, "        parsec_list_nolock_push_front(&reuse_fl->list, &current_segment->super);\n    } else {", "        parsec_list_nolock_push_front(&reuse_fl->list, &current_segment->super);\n        return;\n    } else {", queries=["u3_e1F1e1_o0_F"]),
+        Mutant("free_next_merge_following_back_pointer", ZM, "        if( NULL != next_segment ) {\n            next_segment->nb_prev = current_segment->nb_units;\n        }", "", queries=["u3_F1e1F1_o0_F"]),
     ]
